@@ -8,7 +8,8 @@ baseline suite with the patch, and the given checks run against that worktree (P
 import json, os, shutil, subprocess, sys, glob
 
 name, wt, props = sys.argv[1], sys.argv[2], sys.argv[3:]
-dst = "/verif/seeded/" + name
+ROOT = os.path.dirname(os.path.dirname(os.path.abspath(__file__)))   # (a snapshot copy of /verif works too: SEED_DST=/verif/seeded)
+dst = os.environ.get("SEED_DST", ROOT + "/seeded") + "/" + name
 os.makedirs(dst, exist_ok=True)
 for f in os.listdir(wt + "/SEED"):
     if os.path.isfile(os.path.join(wt, "SEED", f)):
@@ -41,7 +42,7 @@ try:
     res["checks"] = {}
     env2 = dict(os.environ, PYTHONPATH=scratch + "/src")
     for p in props:
-        c = subprocess.run(["./check", p, "--tier", "quick"], cwd="/verif", capture_output=True, text=True, timeout=3600, env=env2)
+        c = subprocess.run(["./check", p, "--tier", "quick"], cwd=ROOT, capture_output=True, text=True, timeout=3600, env=env2)
         viol = [l for l in c.stdout.split("\n") if l.startswith("VIOLATION")]
         sigs = sorted({l.strip() for l in c.stdout.split("\n") if l.strip().startswith("signature:")})[:4]
         res["checks"][p] = {"exit": c.returncode, "violations": len(viol), "signatures": sigs}
